@@ -33,6 +33,9 @@ def run(ctx):
     from ..engines import provenance as PV
     PV.a5_application_discipline(ctx, rule_id="E4", only={"ForestRuleExtractor._rules_for_class"})
     ctx.floor("E4", 2)
+    # the inner search records what the offered pack yields: the right rule under the right labels
+    PV.a1_a2_expand_yield(ctx)
+    ctx.floor("A1", 2)
     ctx.floor("X6", 2)
     ctx.floor("E10", 7)
     ctx.floor("X1", 4)
